@@ -172,6 +172,17 @@ func handleRequest(clientID string, req *ntp.Packet, rxt, txt *time.Time, resp *
 		o, min, max = -1, -1, -1
 	}
 
+	if !rxt.Before(*txt) {
+		// the clock reading is not later than the receive time (e.g., a
+		// receive timestamp from a clock that is ahead): what goes on record
+		// is served in interleaved mode, possibly before updateTXTimestamp
+		// has seen it, and has to be later than the receive time
+		*txt = *rxt
+		*txt = txt.Add(1)
+		txt64 = ntp.Time64FromTime(*txt)
+		tssMetrics.txtIncrementsBefore.Inc()
+	}
+
 	resp.ReferenceTime = txt64
 	resp.ReceiveTime = rxt64
 	if req.ReceiveTime != req.TransmitTime && o != -1 {
